@@ -1,4 +1,18 @@
 //! C08 — Every request is answered exactly once; ACKs and responses never are
+//!
+//! `stack` (sampled): a layer stack built from policy tables, a handful of requests from one peer. Per request the
+//! generator also varies the Via list (the request came directly, or through one / two proxies: further Via values
+//! with their own sent-by and branch below the top one, as separate header lines or as one comma-separated list)
+//! and, for INVITEs that end up rejected, how often the ACK arrives (once, or again 1 / 3 + 1300 / 400 / 3000 ms
+//! after the first copy, i.e. inside T4). Oracle: a response on the wire is attributed to the request whose
+//! top-Via branch occurs ANYWHERE in its Via list (all branches of a case are unique) and whose CSeq number it
+//! carries; it matches the request only if that branch is in its top-most Via (and the values below it are the
+//! request's, same order); the first taking layer / usage in registration order decides the code, else 404 / 481
+//! from the stack; a rejected INVITE's final response is on the wire at the answer instant and on the timer-G
+//! schedule until the ACK, and not again when a further copy of the ACK arrives (an ACK is never answered).
+//! `pending_invite`, `session_backlog` drive the acceptor world of C12 (`c12::run`); see the comments there.
+//! Not asserted: instants where an ACK / copy coincides with a timer; copies of an INVITE that arrive after the
+//! ACK of its rejection (ezk keeps no Confirmed state: such a copy is a new request, answered again).
 
 use crate::engine::*;
 use crate::refmodel::ref_tsx;
@@ -52,6 +66,16 @@ pub struct Req {
     /// matching on Call-ID / From-tag / CSeq / top Via (and, for the ACK, the To-tag of the response)
     #[serde(default)]
     pub legacy_branch: bool,
+    /// number of further Via values below the top one (the request passed that many proxies before it reached us)
+    #[serde(default)]
+    pub via_hops: u8,
+    /// the Via values come as one comma-separated header line instead of one line each
+    #[serde(default)]
+    pub via_csv: bool,
+    /// for rejected INVITEs: further byte-identical copies of the ACK, this many ms after the first ACK (a
+    /// retransmitted / duplicated ACK; an ACK is never answered and ends the retransmission of the rejection)
+    #[serde(default)]
+    pub ack_copies: Vec<u64>,
 }
 
 #[derive(Serialize, Deserialize, Clone, Debug, Hash)]
@@ -102,8 +126,18 @@ pub fn strategy() -> BoxedStrategy<Case> {
         0u8..(METHODS.len() as u8),
         prop_oneof![Just(None), Just(Some(250u64)), Just(Some(700u64)), Just(Some(1800u64))],
         prop_oneof![3 => Just(false), 1 => Just(true)],
+        // Via list: alone (a directly connected client), or behind one / two proxies; as separate lines or one list
+        (prop_oneof![2 => Just(0u8), 1 => Just(1u8), 1 => Just(2u8)], any::<bool>()),
+        // copies of the ACK: none, an immediate duplicate, retransmissions inside / outside T4 after the first
+        prop_oneof![
+            3 => Just(vec![]),
+            1 => Just(vec![1u64]),
+            1 => Just(vec![400u64]),
+            1 => Just(vec![3u64, 1300]),
+            1 => Just(vec![3000u64]),
+        ],
     )
-        .prop_map(|(gap, kind, method, ack_after, legacy_branch)| Req { gap, kind, method, ack_after, cseq_offset: None, legacy_branch });
+        .prop_map(|(gap, kind, method, ack_after, legacy_branch, (via_hops, via_csv), ack_copies)| Req { gap, kind, method, ack_after, cseq_offset: None, legacy_branch, via_hops, via_csv, ack_copies });
     (
         prop_oneof![3 => Just(false), 1 => Just(true)],
         prop::collection::vec(spec_strategy(), 1..5),
@@ -327,6 +361,22 @@ struct Sent1 {
     kind: Kind,
     is_copy: bool,
     ack_at: Option<u64>,
+    /// instants of the further copies of the ACK
+    ack_copies_at: Vec<u64>,
+    /// (sent-by, branch) of every Via value of the request, top first
+    vias: Vec<(String, String)>,
+}
+
+/// (sent-by, branch) of one Via value as found on the wire
+fn via_id(v: &str) -> (String, String) {
+    let sent_by = v.split_whitespace().nth(1).unwrap_or("").split(';').next().unwrap_or("").trim().to_string();
+    (sent_by, wire::param_of(v, "branch").unwrap_or_default())
+}
+
+/// the request (by index into `sent`) a response on the wire belongs to: the one whose top-Via branch appears
+/// anywhere in the response's Via list (every branch of a case is unique) and whose CSeq number it carries
+fn belongs_to(m: &WireMsg, s: &Sent1) -> bool {
+    !m.is_request() && m.cseq().map(|c| c.0) == Some(s.cseq) && m.list_values("via").iter().any(|v| via_id(v).1 == s.branch)
 }
 
 pub struct Observed {
@@ -400,7 +450,13 @@ pub fn run(case: &Case) -> Observed {
             let marker = format!("q{i}");
             let method = METHODS[r.method as usize % METHODS.len()];
             let branch = if r.legacy_branch { format!("c08legacy{i}") } else { format!("z9hG4bKc08x{i}") };
-            let via = vec![format!("SIP/2.0/UDP 192.0.2.9:5060;branch={branch}")];
+            // the Via list as the last hop sent it: its own value on top, below it the values of the hops before
+            // it (another proxy, the originating client), each with its own branch
+            let mut via_values = vec![format!("SIP/2.0/UDP 192.0.2.9:5060;branch={branch}")];
+            for h in 0..r.via_hops.min(2) {
+                via_values.push(format!("SIP/2.0/UDP 198.51.100.{}:5062;branch=z9hG4bKc08x{i}hop{h}", 7 + h));
+            }
+            let via = if r.via_csv { vec![via_values.join(", ")] } else { via_values.clone() };
             let (bytes, method_s, cseq, is_copy, kind) = match r.kind {
                 Kind::Retransmit(k) if !sent.is_empty() => {
                     let src = &sent[k as usize % sent.len()];
@@ -469,6 +525,8 @@ pub fn run(case: &Case) -> Observed {
                 (marker, if method_s == "RESPONSE" { format!("z9hG4bKstray{i}") } else { branch })
             };
             let ack_at = if method_s == "INVITE" && !is_copy { r.ack_after.map(|a| t + a) } else { None };
+            let ack_copies_at: Vec<u64> = ack_at.map_or(vec![], |a| r.ack_copies.iter().map(|d| a + d).collect());
+            let vias: Vec<(String, String)> = WireMsg::parse(&bytes).map_or(vec![], |m| m.list_values("via").iter().map(|v| via_id(v)).collect());
             events.push((t, events.len(), bytes.clone(), None));
             if let Some(a) = ack_at {
                 // ACK for a non-2xx as RFC 3261 17.1.1.3 builds it: Request-URI, top Via, From, Call-ID and CSeq
@@ -486,9 +544,12 @@ pub fn run(case: &Case) -> Observed {
                     &[format!("X-Seq: ack-{marker}")],
                     b"",
                 );
-                events.push((a, events.len(), ack, Some(branch.clone())));
+                events.push((a, events.len(), ack.clone(), Some(branch.clone())));
+                for c in &ack_copies_at {
+                    events.push((*c, events.len(), ack.clone(), Some(branch.clone())));
+                }
             }
-            sent.push(Sent1 { t_ms: t, marker, bytes, branch, cseq, method: method_s, kind, is_copy, ack_at });
+            sent.push(Sent1 { t_ms: t, marker, bytes, branch, cseq, method: method_s, kind, is_copy, ack_at, ack_copies_at, vias });
         }
         events.sort_by_key(|e| (e.0, e.1));
         for (t, _, mut bytes, ack_for) in events {
@@ -543,8 +604,25 @@ pub fn check(case: &Case, out: &mut CaseOut) {
             .wire
             .iter()
             .filter_map(|(w, m)| m.as_ref().map(|m| (w, m)))
-            .filter(|(_, m)| !m.is_request() && m.via_branch().as_deref() == Some(s.branch.as_str()) && m.cseq().map(|c| c.0) == Some(s.cseq))
+            .filter(|(_, m)| belongs_to(m, s))
             .collect();
+        // ---- a response matches its request: same top-Via branch, and the Via values below it as received ----
+        if s.method != "RESPONSE" {
+            if responses.iter().any(|(_, m)| m.via_branch().as_deref() != Some(s.branch.as_str())) {
+                out.fail(
+                    "c08.answer/top-via-is-not-the-requests",
+                    format!("{} {} ({:?}) came with Via {:?}, its response carries {:?}", s.marker, s.method, s.kind, s.vias, responses[0].1.list_values("via")),
+                );
+            } else if let Some((_, m)) = responses.iter().find(|(_, m)| m.list_values("via").iter().map(|v| via_id(v)).collect::<Vec<_>>() != s.vias) {
+                out.fail(
+                    "c08.answer/via-list-not-mirrored",
+                    format!("{} {} ({:?}) came with Via {:?}, its response carries {:?}", s.marker, s.method, s.kind, s.vias, m.list_values("via")),
+                );
+            }
+            if s.vias.len() > 1 && !responses.is_empty() {
+                out.class(if s.method == "INVITE" { "answered INVITE that came through proxies (several Via)" } else { "answered non-INVITE that came through proxies (several Via)" });
+            }
+        }
         if s.method == "RESPONSE" {
             if !responses.is_empty() {
                 out.fail("c08.answer/stray-response-answered", format!("stray response {} produced output", s.marker));
@@ -637,7 +715,14 @@ pub fn check(case: &Case, out: &mut CaseOut) {
                         || s.ack_at.map_or(false, |a| want.contains(&a) || a <= answer_due)
                         || obs.sent.iter().any(|c| c.is_copy && c.marker == s.marker && (c.t_ms <= answer_due || c.t_ms >= stop));
                     let got_t: Vec<u64> = finals.iter().map(|(w, _)| w.t_ms).filter(|t| *t < end_t).collect();
-                    if !ties && got_t != want {
+                    let on_ack_copy: Vec<u64> = got_t.iter().copied().filter(|t| s.ack_copies_at.contains(t)).collect();
+                    if !ties && !on_ack_copy.is_empty() {
+                        // the first ACK ended the retransmission; a further copy of the ACK is an ACK: never answered
+                        out.fail(
+                            format!("c08.invite-rejection/{who}-copy-of-the-ack-answered"),
+                            format!("{} INVITE rejected {code}, ACK at {:?}, copies of the ACK at {:?}: rejection sent again at {on_ack_copy:?} (all transmissions {got_t:?})", s.marker, s.ack_at, s.ack_copies_at),
+                        );
+                    } else if !ties && got_t != want {
                         out.fail(
                             format!("c08.invite-rejection/{who}-not-retransmitted-until-ack"),
                             format!("{} INVITE rejected {code}: transmissions at {got_t:?}, expected {want:?} (ACK at {:?})", s.marker, s.ack_at),
@@ -645,6 +730,9 @@ pub fn check(case: &Case, out: &mut CaseOut) {
                     }
                     if want.len() > 1 {
                         out.class("invite-rejection-retransmitted");
+                    }
+                    if !ties && s.ack_copies_at.iter().any(|c| *c < end_t) {
+                        out.class("rejected INVITE: ACK arrives more than once");
                     }
                 }
                 // non-INVITE / reliable: exactly the first copy plus one per retransmitted request
@@ -658,7 +746,7 @@ pub fn check(case: &Case, out: &mut CaseOut) {
     for (w, m) in &obs.wire {
         match m {
             Some(m) if !m.is_request() => {
-                let known = obs.sent.iter().any(|s| m.via_branch().as_deref() == Some(s.branch.as_str()));
+                let known = obs.sent.iter().any(|s| m.list_values("via").iter().any(|v| via_id(v).1 == s.branch));
                 if !known {
                     out.fail("c08.wire/response-to-unknown-request", format!("response {:?} at {} ms matches no request", m.start, w.t_ms));
                 }
@@ -710,7 +798,7 @@ pub fn reordered_cases(_tier: Tier) -> Vec<Case> {
                     dialog_layer_pos: Some(1),
                     usages: vec![],
                     invite_layer: true,
-                    requests: order.iter().map(|o| Req { gap: 1, kind: Kind::InDialog, method, ack_after: None, cseq_offset: Some(*o), legacy_branch: false }).collect(),
+                    requests: order.iter().map(|o| Req { gap: 1, kind: Kind::InDialog, method, ack_after: None, cseq_offset: Some(*o), legacy_branch: false, via_hops: 0, via_csv: false, ack_copies: vec![] }).collect(),
                     rng: n,
                     uas_tags: false,
                 });
@@ -746,8 +834,8 @@ pub fn check_reordered(case: &Case, out: &mut CaseOut) {
 
 // ---------------------------------------------------------------------------------------------
 // requests that hit a pending (unanswered) INVITE held by an acceptor: CANCEL and BYE are claimed by the
-// invite layer / usage, which answers them AND the INVITE; nobody ever ACKs the 487 here (so it is re-sent on the
-// timer-G schedule until 64*T1). Also: the same histories with the transport refusing exactly one send (the request
+// invite layer / usage, which answers them AND the INVITE; the 487 is either never ACKed (so it is re-sent on the
+// timer-G schedule until 64*T1) or ACKed once / several times (re-sent until the first ACK, never after it). Also: the same histories with the transport refusing exactly one send (the request
 // whose own answer was refused is excused, all others keep their claim to one final response) or keeping every
 // send pending 2 ms; and PRACKs for a reliable 183 that arrive while the acceptor waits, after it gave up, after the
 // application abandoned the call, with another RAck, or twice: one final response each (200 from the usage, else
@@ -766,6 +854,14 @@ pub fn pending_cases(_tier: Tier) -> Vec<super::c12::Case> {
         vec![(5, NetOp::Cancel { branch_ok: false, cseq_ok: true })],
         vec![(5, NetOp::Cancel { branch_ok: true, cseq_ok: false })],
         vec![(5, cancel), (40_000, NetOp::Bye)],
+        // the peer ACKs the 487 (RFC 3261 17.1.1.3), once or several times (a duplicated / retransmitted ACK inside
+        // and outside T4 after the first): the ACK ends the retransmission and is itself never answered
+        vec![(5, cancel), (300, NetOp::AckFinal)],
+        vec![(5, cancel), (300, NetOp::AckFinal), (301, NetOp::AckFinal)],
+        vec![(5, cancel), (700, NetOp::AckFinal), (2000, NetOp::AckFinal)],
+        vec![(5, NetOp::Bye), (300, NetOp::AckFinal), (4000, NetOp::AckFinal)],
+        vec![(5, cancel), (300, NetOp::AckFinal), (9000, NetOp::AckFinal)],
+        vec![(5, NetOp::Bye), (1700, NetOp::AckFinal), (1701, NetOp::AckFinal), (1702, NetOp::AckFinal)],
     ];
     let mut out = vec![];
     for (i, net) in patterns.iter().enumerate() {
@@ -776,6 +872,17 @@ pub fn pending_cases(_tier: Tier) -> Vec<super::c12::Case> {
             // the same over a transport whose sends stay pending 2 ms (the next request is processed while the
             // answer to the previous one is still being written)
             out.push(C { app: app.clone(), net: net.clone(), net_first: false, rng: i as u8, send_delay_ms: 2, ..Default::default() });
+            if net.iter().any(|(_, o)| *o == NetOp::AckFinal) {
+                out.push(C { app: app.clone(), net: net.clone(), net_first: false, rng: i as u8, reliable: true, ..Default::default() });
+            }
+        }
+    }
+    // the INVITE and the in-dialog requests came through one / two proxies (further Via values below the top one)
+    for (i, net) in patterns.iter().enumerate() {
+        if [0usize, 1, 2, 5, 9, 12].contains(&i) {
+            for (via_hops, app) in [(1u8, vec![]), (2u8, vec![(1u64, AppOp::Prov180)])] {
+                out.push(C { app, net: net.clone(), net_first: false, rng: 50 + i as u8, via_hops, ..Default::default() });
+            }
         }
     }
     // the transport refuses exactly one send (an io::Error from `Transport::send`, e.g. a pending ICMP error): the
@@ -819,6 +926,9 @@ pub fn pending_cases(_tier: Tier) -> Vec<super::c12::Case> {
         }
         out.push(C { app: vec![(1, AppOp::Rel183)], net: net.clone(), net_first: false, rng: 100 + i as u8, send_delay_ms: 2, ..Default::default() });
         out.push(C { app: vec![(1, AppOp::Rel183)], net: net.clone(), net_first: false, rng: 100 + i as u8, reliable: true, ..Default::default() });
+        if i % 4 == 0 {
+            out.push(C { app: vec![(1, AppOp::Rel183)], net: net.clone(), net_first: false, rng: 100 + i as u8, via_hops: 1 + (i as u8 / 4) % 2, ..Default::default() });
+        }
     }
     out
 }
@@ -853,15 +963,34 @@ pub fn check_pending(case: &super::c12::Case, out: &mut CaseOut) {
         .filter_map(|m| Some((m.via_branch()?, m.cseq()?.1)))
         .collect();
     let decisive = case.net.iter().any(|(_, o)| matches!(o, NetOp::Bye | NetOp::Cancel { branch_ok: true, cseq_ok: true }));
+    // instants at which the peer ACKed the final response of the INVITE
+    let acks: Vec<u64> = case.net.iter().enumerate().filter(|(i, (_, o))| *o == NetOp::AckFinal && !obs.skipped_net.contains(i)).map(|(_, (t, _))| *t).collect();
     for (branch, method, t) in &branches {
         let finals: Vec<(u64, u16, &[u8])> = obs
             .wire
             .iter()
             .filter_map(|(s, m)| m.as_ref().map(|m| (s, m)))
-            .filter(|(_, m)| !m.is_request() && m.via_branch().as_deref() == Some(branch.as_str()) && m.cseq().map_or(false, |c| &c.1 == method))
+            .filter(|(_, m)| !m.is_request() && m.list_values("via").iter().any(|v| via_id(v).1 == *branch) && m.cseq().map_or(false, |c| &c.1 == method))
             .filter(|(_, m)| m.status().unwrap_or(0) >= 200)
             .map(|(s, m)| (s.t_ms, m.status().unwrap_or(0), &s.bytes[..]))
             .collect();
+        // the response matches the request: its top Via is the request's top Via, the values below it as received
+        // (INVITE, BYE, PRACK come with `via_hops` further values; a CANCEL is hop-by-hop and has one)
+        let hops = if method == "CANCEL" { 0 } else { case.via_hops.min(2) as usize };
+        let want_vias: Vec<String> = std::iter::once(branch.clone()).chain((0..hops).map(|h| format!("{branch}hop{h}"))).collect();
+        for (_, m) in obs.wire.iter().filter_map(|(s, m)| m.as_ref().map(|m| (s, m))).filter(|(_, m)| !m.is_request() && m.cseq().map_or(false, |c| &c.1 == method)) {
+            let got: Vec<String> = m.list_values("via").iter().map(|v| via_id(v).1).collect();
+            if !got.contains(branch) {
+                continue;
+            }
+            if got.first() != Some(branch) {
+                out.fail("c08.pending/top-via-is-not-the-requests", format!("{method} came with Via branches {want_vias:?}, its {} carries {got:?}", m.start));
+                break;
+            } else if got != want_vias {
+                out.fail("c08.pending/via-list-not-mirrored", format!("{method} came with Via branches {want_vias:?}, its {} carries {got:?}", m.start));
+                break;
+            }
+        }
         let mut distinct: Vec<&[u8]> = finals.iter().map(|f| f.2).collect();
         distinct.sort();
         distinct.dedup();
@@ -896,16 +1025,30 @@ pub fn check_pending(case: &super::c12::Case, out: &mut CaseOut) {
         // the 487 goes through the INVITE server transaction: re-sent at T1 doubling up to T2 until the ACK, which
         // never comes here, i.e. until 64*T1 (only asserted where nothing else touches the schedule: unreliable
         // transport, no send latency, no copy of the INVITE, no refused copy)
-        if method == "INVITE" && !finals.is_empty() && distinct.len() == 1 && !case.reliable && case.send_delay_ms == 0 && !case.net.iter().any(|(_, o)| *o == NetOp::DupInvite) {
+        // With an ACK: re-sent until the ACK, never after it (whatever else arrives: an ACK is not answered)
+        let no_copy = !case.net.iter().any(|(_, o)| *o == NetOp::DupInvite);
+        let after_ack: Vec<u64> = finals.iter().map(|f| f.0).filter(|t| acks.first().map_or(false, |a| *t > *a + case.send_delay_ms)).collect();
+        if method == "INVITE" && !after_ack.is_empty() && distinct.len() == 1 && no_copy {
+            out.fail("c08.pending/invite-487-sent-again-after-ack", format!("487 ACKed at {acks:?}, sent again at {after_ack:?}"));
+        } else if method == "INVITE" && !finals.is_empty() && distinct.len() == 1 && !case.reliable && case.send_delay_ms == 0 && no_copy {
             let t0 = finals[0].0;
+            let stop = acks.first().copied().unwrap_or(u64::MAX);
             let mut want = vec![t0];
-            want.extend(ref_tsx::server_inv_timer_g_schedule().into_iter().map(|g| t0 + g));
+            want.extend(ref_tsx::server_inv_timer_g_schedule().into_iter().map(|g| t0 + g).filter(|t| *t < stop));
             let got: Vec<u64> = finals.iter().map(|f| f.0).collect();
             if got != want {
-                out.fail("c08.pending/invite-487-not-retransmitted-until-64T1", format!("487 transmissions at {got:?}, expected {want:?} (nobody ACKs)"));
+                out.fail(
+                    if acks.is_empty() { "c08.pending/invite-487-not-retransmitted-until-64T1" } else { "c08.pending/invite-487-not-retransmitted-until-ack" },
+                    format!("487 transmissions at {got:?}, expected {want:?} (ACK at {acks:?})"),
+                );
             } else {
-                out.class("487 retransmitted until 64*T1");
+                out.class(if acks.is_empty() { "487 retransmitted until 64*T1" } else { "487 retransmitted until the ACK" });
             }
+        } else if method == "INVITE" && case.reliable && distinct.len() == 1 && finals.len() > 1 && no_copy {
+            out.fail("c08.pending/invite-487-sent-more-than-once-on-reliable-transport", format!("487 transmissions at {:?}", finals.iter().map(|f| f.0).collect::<Vec<_>>()));
+        }
+        if method == "INVITE" && acks.len() > 1 {
+            out.class("487 ACKed more than once");
         }
         if finals.is_empty() {
             out.fail(format!("c08.pending/{}-unanswered", method.to_lowercase()), format!("{method} (branch {branch}, sent at {t} ms) never got a final response (application ops {:?}, refused sends {:?})", case.app, case.fail_sends));
@@ -921,6 +1064,9 @@ pub fn check_pending(case: &super::c12::Case, out: &mut CaseOut) {
     }
     if case.send_delay_ms > 0 {
         out.class("send stays pending (back-pressure)");
+    }
+    if case.via_hops > 0 {
+        out.class("requests came through proxies (several Via)");
     }
     out.nontrivial(case);
 }
@@ -1026,11 +1172,13 @@ pub fn property() -> Property {
     Property {
         fuzz: vec![],
         id: "C08",
-        rule: "stack: a case = layer stack (1..4 policy layers, each Ignore / Inspect / Answer(code, delay) / TakeDrop per method; optionally DialogLayer at any position with 0..2 policy usages; optionally InviteLayer) x 1..4 requests (out-of-dialog, in-dialog for the existing / an unknown dialog, ACK, stray response, byte-identical retransmission; methods INVITE/OPTIONS/BYE/MESSAGE/CANCEL/unknown) arriving 0..2100 ms apart, ACK for rejected INVITEs at 250/700/1800 ms or never; both reliabilities. Oracle: first taking layer in registration order decides the code, else 404 (in-dialog, no usage wants it) / 481 by the stack; wire grouped by (branch, CSeq). Non-trivial = a layer inspects without taking before another layer/the stack answers, or an in-dialog request falls through all usages, or >=2 requests overlap; distinct by case. pending_invite (enumerated, acceptor world of C12): CANCEL / BYE / copies hitting an unanswered INVITE x {no 1xx, 180 sent} x both same-instant orders, x {transport refuses the k-th send, k=0..3} and x {every send stays pending 2 ms}; reliable 183 (waiting / abandoned by the application after 700, 3000 ms) x PRACK {while waiting, around and after the give-up instant 31*T1, wrong RAck, second copy, followed by CANCEL / BYE}; wire grouped by (branch, method): one final response per request, the un-ACKed 487 re-sent on the timer-G schedule until 64*T1. reordered_in_dialog, session_backlog: enumerated, see the sub-check comments.",
+        rule: "stack: a case = layer stack (1..4 policy layers, each Ignore / Inspect / Answer(code, delay) / TakeDrop per method; optionally DialogLayer at any position with 0..2 policy usages; optionally InviteLayer) x 1..4 requests (out-of-dialog, in-dialog for the existing / an unknown dialog, ACK, stray response, byte-identical retransmission; methods INVITE/OPTIONS/BYE/MESSAGE/CANCEL/unknown; each with 1..3 Via values = came directly / through 1..2 proxies, as separate lines or one comma list) arriving 0..2100 ms apart, ACK for rejected INVITEs at 250/700/1800 ms or never, half of them followed by further copies of that ACK 1 / 3+1300 / 400 / 3000 ms later; both reliabilities. Oracle: first taking layer in registration order decides the code, else 404 (in-dialog, no usage wants it) / 481 by the stack; wire grouped by (request branch anywhere in the response's Via list, CSeq): the response's top Via must carry the request's top branch and the Via values below it must be the request's in order; a rejection is re-sent on the timer-G schedule until the ACK and not again when a copy of the ACK arrives. Non-trivial = a layer inspects without taking before another layer/the stack answers, or an in-dialog request falls through all usages, or >=2 requests overlap; distinct by case. pending_invite (enumerated, acceptor world of C12): CANCEL / BYE / copies hitting an unanswered INVITE x {no 1xx, 180 sent} x both same-instant orders, x {transport refuses the k-th send, k=0..3} and x {every send stays pending 2 ms}; reliable 183 (waiting / abandoned by the application after 700, 3000 ms) x PRACK {while waiting, around and after the give-up instant 31*T1, wrong RAck, second copy, followed by CANCEL / BYE}; CANCEL / BYE followed by the ACK of the 487 once, twice (1 ms / 1.3 s / 3.7 s / 8.7 s apart) or three times, also over a reliable transport; a selection of all these with 1 / 2 further Via values on the INVITE and the in-dialog requests; wire grouped by (branch anywhere in the Via list, method): top Via / Via list as in `stack`,: one final response per request, the 487 re-sent on the timer-G schedule until its ACK (until 64*T1 when nobody ACKs) and never after the ACK. reordered_in_dialog, session_backlog: enumerated, see the sub-check comments.",
         assumptions: vec![
             "take-and-drop layers are excluded from the exactly-one count (the application chose not to answer) but must not cause an answer",
             "in-dialog requests carry increasing CSeq numbers in arrival order (re-ordering is C10's subject)",
             "instants where an ACK coincides with a timer-G instant are don't-cares",
+            "a copy of an INVITE that arrives after the ACK of its rejection is a don't-care (ezk keeps no Confirmed state, the copy is a new request and answered again); copies of the ACK are in the domain: they are never answered",
+            "responses are compared with the request's Via list by (sent-by, branch) per value; parameters the server may add to the top Via (received, rport) are not looked at",
             "a request whose own final response the transport refused (io::Error from Transport::send) is excused from the exactly-one count: the stack decided and tried; every other request of the history is still owed its answer",
             "which of 200 (usage) / 404 / 481 (stack) a PRACK gets that arrives when the acceptor no longer waits is not asserted, only that it gets exactly one of them",
         ],
